@@ -991,6 +991,7 @@ func main() {
 	var violationLines, knownLines []string
 	var evViolations []map[string]any
 	var evKnown []map[string]any
+	var unconfirmed []string
 	os.MkdirAll(filepath.Join(verifDir, "replays"), 0o755)
 	for _, c := range classes {
 		f := failures[c]
@@ -1016,7 +1017,7 @@ func main() {
 			// evicted shadow history still holds the earlier access) can vary
 			// between executions: accept any race report from this run, and
 			// try a few times.
-			for attempt := 0; attempt < 4 && !strings.Contains(gotClass, "/race:"); attempt++ {
+			for attempt := 0; attempt < 9 && !strings.Contains(gotClass, "/race:"); attempt++ {
 				gotClass, gotDetail, rec = confirmReplay(bins, prop, rf, path)
 			}
 			if strings.Contains(gotClass, "/race:") {
@@ -1027,7 +1028,18 @@ func main() {
 			gotClass = c // the same schedule hangs again; where exactly it spins may differ
 		}
 		if gotClass != c {
-			trouble("violation class %q (seed %d run %d) did not reproduce from its replay file %s in a fresh process (got %q): the run is not deterministic; this is a harness problem, not reported as a violation", c, f.seed, f.run, path, gotClass)
+			msg := fmt.Sprintf("violation class %q (seed %d run %d) did not reproduce from its replay file %s in a fresh process (got %q)", c, f.seed, f.run, path, gotClass)
+			if strings.Contains(c, "/race:") {
+				// whether the race detector reports a given pair of accesses
+				// depends on its bounded, pseudo-randomly evicted access
+				// history: an unconfirmed report is never a VIOLATION, but it
+				// does not stop the classes that do reproduce from being
+				// reported
+				unconfirmed = append(unconfirmed, msg)
+				os.Remove(path)
+				continue
+			}
+			trouble("%s: the run is not deterministic; this is a harness problem, not reported as a violation", msg)
 		}
 		if rec != nil {
 			rf.Record = rec
@@ -1048,6 +1060,12 @@ func main() {
 			fmt.Printf("violation class=%s seed=%d run=%d occurrences=%d\n  %s\n", c, f.seed, f.run, f.count, strings.ReplaceAll(clip(gotDetail, 2500), "\n", "\n  "))
 			evViolations = append(evViolations, entry)
 		}
+	}
+	for _, u := range unconfirmed {
+		fmt.Printf("check: not reported (unconfirmed race report): %s\n", u)
+	}
+	if len(unconfirmed) > 0 && len(violationLines) == 0 && len(knownLines) == 0 {
+		trouble("%d race report(s) did not reproduce and nothing else was found: %s", len(unconfirmed), unconfirmed[0])
 	}
 	writeEvidence(prop, tier, seed, si, batches, evViolations, evKnown, time.Since(t0).Seconds())
 	for _, l := range knownLines {
